@@ -24,14 +24,26 @@ package storage
 
 // Transaction layer over block layer (C15). `Block` is the ghost view of the backend overlay.
 //@ func (*CacheDB).Reset
-//@   trusted   -- MemDB.Reset drops every buffered write: the view falls back to the backend
+//@   property C15
+//@   mode abstract
+//@   requires self != nil
 //@   modifies Store
-//@   ensures Store == Block
+//@   ghost var cleared bool = false
+//@   set after "self.memdb.Reset()" : cleared := true
+//@   -- on every path the in-memory table is emptied (no shortcut keeps buffered writes or deletions alive)
+//@   ensures[c15-always-clears] cleared
+//@   assumes Store == Block   -- MemDB.Reset drops every buffered entry (C09/C10): the view falls back to the backend
 
 //@ func (*CacheDB).Commit
-//@   trusted   -- replays every buffered write (put, or delete for an empty value) into the backend
+//@   property C15
+//@   mode abstract
+//@   requires self != nil
 //@   modifies Block
-//@   ensures Block == Store
+//@   ghost var walked bool = false
+//@   set after "self.memdb.ForEach(func(key, val []byte) { if len(val) == 0 { self.backend.Delete(key) } else { self.backend.Put(key, val) } })" : walked := true
+//@   -- on every path every buffered entry is replayed into the backend
+//@   ensures[c15-always-replays] walked
+//@   assumes Block == Store   -- ForEach visits every buffered write: put, or delete for an empty value (C09/C10)
 
 //@ func NewCacheDB
 //@   trusted
